@@ -17,6 +17,7 @@ import (
 	"sync"
 	"sync/atomic"
 
+	"github.com/dgraph-io/badger/v4/verifhook"
 	"github.com/dgraph-io/badger/v4/y"
 	"github.com/dgraph-io/ristretto/v2/z"
 )
@@ -85,12 +86,14 @@ func (o *oracle) readTs() uint64 {
 	readTs = o.nextTxnTs - 1
 	o.readMark.Begin(readTs)
 	o.Unlock()
+	verifhook.Point("readts.beforeWait")
 
 	// Wait for all txns which have no conflicts, have been assigned a commit
 	// timestamp and are going through the write to value log and LSM tree
 	// process. Not waiting here could mean that some txns which have been
 	// committed would not be read.
 	y.Check(o.txnMark.WaitForMark(context.Background(), readTs))
+	verifhook.Ev("readts.granted", readTs, 0)
 	return readTs
 }
 
@@ -167,6 +170,7 @@ func (o *oracle) newCommitTs(txn *Txn) (uint64, bool) {
 		ts = o.nextTxnTs
 		o.nextTxnTs++
 		o.txnMark.Begin(ts)
+		verifhook.Ev("commit.begin", ts, 0)
 
 	} else {
 		// If commitTs is set, use it instead.
@@ -232,6 +236,7 @@ func (o *oracle) doneCommit(cts uint64) {
 		// No need to update anything.
 		return
 	}
+	verifhook.Ev("commit.done", cts, 0)
 	o.txnMark.Done(cts)
 }
 
@@ -531,6 +536,7 @@ func (txn *Txn) commitAndSend() (func() error, error) {
 	if conflict {
 		return nil, ErrConflict
 	}
+	verifhook.Point("commit.afterTs")
 
 	keepTogether := true
 	setVersion := func(e *Entry) {
@@ -595,8 +601,10 @@ func (txn *Txn) commitAndSend() (func() error, error) {
 		orc.doneCommit(commitTs)
 		return nil, err
 	}
+	verifhook.Point("commit.afterSend")
 	ret := func() error {
 		err := req.Wait()
+		verifhook.Point("commit.beforeDone")
 		// Wait before marking commitTs as done.
 		// We can't defer doneCommit above, because it is being called from a
 		// callback here.
